@@ -178,3 +178,37 @@ def parseInteger(manifest):
          "  %s value; /* Lexer::value */\n  %s\n  %s lexer_value = value; /* Lexer::getNumber() */\n"
          "  /* Parser::parseInteger body */\n  %s\n}\n") % (ty, asg_c, rty, b)
     return t
+
+
+LEX_NUMBER_LOOP_CONTRACT = (
+    "\n    __CPROVER_assigns(lex_pos, lex_eof, lastChar, num_len, currentCharNumber, __CPROVER_object_whole(num_buf))\n"
+    "    __CPROVER_loop_invariant(num_len >= 1 && num_len < LEX_NMAX && lex_pos >= 1 && lex_pos <= lex_n)\n"
+    "    __CPROVER_loop_invariant(num_len == lex_pos - __CPROVER_loop_entry(lex_pos) + 1)\n"
+    "    __CPROVER_loop_invariant(lex_k >= num_len || num_buf[lex_k] == lex_in[__CPROVER_loop_entry(lex_pos) - 1 + lex_k])\n"
+    "    __CPROVER_loop_invariant(lex_k >= num_len || (num_buf[lex_k] >= '0' && num_buf[lex_k] <= '9'))\n"
+    "    __CPROVER_loop_invariant(lastChar == lex_in[lex_pos - 1])\n")
+
+
+def lexNumber(manifest):
+    """Lexer::readChar and the number arm of Lexer::readToken (the digit-collecting loop), as C over a symbolic
+    input buffer.  std::string number -> num_buf/num_len (append only); the istream -> lex_in/lex_pos/lex_n;
+    currentLine (diagnostic text) is dropped; strtoul is the ghost call lex_strtoul() which records what it was given."""
+    asm = Source("hexasm.hpp", manifest)
+    rc, _, _ = asm.block_after(r"int readChar\(\) \{", "Lexer::readChar")
+    rc = rewrite(rc, [
+        (r"file->get\(lastChar\);", "if (lex_pos < lex_n) { lastChar = lex_in[lex_pos]; lex_eof = 0; } else { lex_eof = 1; } lex_pos++;", 1, 1),
+        (r"currentLine \+= lastChar;", "/* currentLine += lastChar: diagnostic text, dropped */;", 1, 1),
+        (r"file->eof\(\)", "lex_eof", 1, 1),
+        (r"\bEOF\b", "(-1)", 1, 1),
+    ], "Lexer::readChar", manifest)
+    leftover_check(rc, "Lexer::readChar")
+    b, _, _ = asm.block_after(r"if \(std::isdigit\(lastChar\)\) \{", "Lexer::readToken number arm")
+    b = rewrite(b, [
+        (r"std::string number\(1, lastChar\);", "num_len = 0; num_buf[num_len++] = lastChar;", 1, 1),
+        (r"while \(std::isdigit\(readChar\(\)\)\) \{", lambda m: "while (lex_isdigit(readChar()))" + LEX_NUMBER_LOOP_CONTRACT + "    {", 1, 1),
+        (r"number \+= lastChar;", "num_buf[num_len++] = lastChar;", 1, 1),
+        (r"value = std::strtoul\(number\.c_str\(\), nullptr, 10\);", "lex_strtoul(); /* value = strtoul(number.c_str(), 0, 10): parse_literal.lemma */", 1, 1),
+        (r"return Token::NUMBER;", "return;", 1, 1),
+    ], "Lexer number arm", manifest)
+    leftover_check(b, "Lexer number arm")
+    return "static int readChar(void) " + rc + "\nstatic void lex_number(void) " + b + "\n"
